@@ -7,4 +7,5 @@ mkdir -p .work evidence replays
 (cd lean && lake build)
 cp -f /repo/Cargo.lock harness/Cargo.lock 2>/dev/null || true
 (cd harness && cargo build --offline)
+(cd harness-tower && cargo build --offline)
 echo setup-ok
